@@ -1464,7 +1464,7 @@ SoPlexBase<R>& SoPlexBase<R>::operator=(const SoPlexBase<R>& rhs)
       _ratiotesterHarris = rhs._ratiotesterHarris;
       _ratiotesterFast = rhs._ratiotesterFast;
       _ratiotesterBoundFlipping = rhs._ratiotesterBoundFlipping;
-      _tolerances = rhs._tolerances;
+      _tolerances = std::make_shared<Tolerances>(*rhs._tolerances);
 
       // copy solution data
       _status = rhs._status;
@@ -1550,7 +1550,6 @@ SoPlexBase<R>& SoPlexBase<R>::operator=(const SoPlexBase<R>& rhs)
       {
          if(_rationalLP != nullptr)
          {
-            clearLPRational();
             _rationalLP->~SPxLPRational();
             spx_free(_rationalLP);
          }
